@@ -245,7 +245,7 @@ int main(int argc, char** argv) {
         // each script in its own child: a corrupted list cannot take the driver down
         pid_t pid = fork();
         if (pid == 0) {
-            alarm(60);
+            alarm(10);
             run_script(sc, out);
             std::fflush(out);
             _exit(0);
